@@ -121,7 +121,7 @@ PollAddOk(fd) == fd \notin kreg
 PollAdd(reg, fd, p, ev, ret) ==
   /\ reg \notin DOMAIN fds
   /\ IF PollAddOk(fd)
-       THEN /\ fds' = Ext(fds, reg, [fd |-> fd, p |-> p, ev |-> ev, ret |-> ret, st |-> "active", pend |-> 0, age |-> 0])
+       THEN /\ fds' = Ext(fds, reg, [fd |-> fd, p |-> p, ev |-> ev, ret |-> ret, st |-> "active", pend |-> 0, age |-> 0, fn |-> 0])
             /\ kreg' = kreg \cup {fd}
        ELSE UNCHANGED <<fds, kreg>>
   /\ UNCHANGED <<jobs, timers, sigs, sigq, now, seqno, running, stopReq, disp, dry, turns, elig, taint, lastTimeout>>
@@ -139,6 +139,12 @@ PollModOk(fd) == ActiveReg(fd) # {}
    turn counting is suspended for that iteration *)
 PollMod(fd, p, ev) ==
   /\ fds' = [r \in DOMAIN fds |-> IF r \in ActiveReg(fd) THEN [fds[r] EXCEPT !.p = p, !.ev = ev] ELSE fds[r]]
+  /\ taint' = TRUE /\ UNCHANGED <<jobs, timers, sigs, kreg, sigq, now, seqno, running, stopReq, disp, dry, turns, elig, lastTimeout>>
+
+(* qb_loop_poll_mod also replaces the callback (and its data): fn names which of the application's callbacks the
+   registration has now; the callback that runs must be that one *)
+PollModFn(fd, p, ev, fn) ==
+  /\ fds' = [r \in DOMAIN fds |-> IF r \in ActiveReg(fd) THEN [fds[r] EXCEPT !.p = p, !.ev = ev, !.fn = fn] ELSE fds[r]]
   /\ taint' = TRUE /\ UNCHANGED <<jobs, timers, sigs, kreg, sigq, now, seqno, running, stopReq, disp, dry, turns, elig, lastTimeout>>
 
 (* the application closes a descriptor: the kernel forgets it *)
